@@ -187,6 +187,7 @@ def run(ctx):
     # ---- the same search loop on BINARY64 score tables of the real built-in scorers (Model/Generic.v at Model/GenericF.v), bit for bit ----
     from harness import floatstreams
     floatstreams.pelt_float_stream(ctx, ctx.n(24, 160))
+    floatstreams.gcov_many_columns_stream(ctx, "PELT(GaussianCovCost)", lambda: __import__("skchange.change_detectors", fromlist=["PELT"]).PELT(cost=__import__("skchange.costs", fromlist=["GaussianCovCost"]).GaussianCovCost(), min_segment_length=45), ctx.n(1, 3), scores_invariant=False)
     floatstreams.pelt_l2_end_to_end_stream(ctx, ctx.n(18, 120))
     floatstreams.pelt_l2_columns_end_to_end_stream(ctx, ctx.n(12, 80))
     # the DEFAULT configuration on series of realistic length and width, decided by the property-level twin of the model
